@@ -59,11 +59,14 @@ type raceResult struct {
 
 // race runs the primary z3 and cvc5 concurrently and returns the first definite "unsat"
 // (cvc5 and z3 have very different strengths on these quantified goals); otherwise z3's answer.
-func race(input string, timeoutMs int, add func(float64)) raceResult {
+func race(input string, timeoutMs int, add func(float64), which ...int) raceResult {
 	ctx, cancel := context.WithCancel(context.Background())
 	defer cancel()
-	ch := make(chan raceResult, 2)
-	for _, si := range []int{0, 2} {
+	if len(which) == 0 {
+		which = []int{0, 2}
+	}
+	ch := make(chan raceResult, len(which))
+	for _, si := range which {
 		s := solvers[si]
 		go func() {
 			out, secs, err := runSolverCtx(ctx, s, input, timeoutMs)
@@ -76,7 +79,7 @@ func race(input string, timeoutMs int, add func(float64)) raceResult {
 		}()
 	}
 	var first raceResult
-	for i := 0; i < 2; i++ {
+	for i := 0; i < len(which); i++ {
 		r := <-ch
 		if r.status == "unsat" || (r.status == "sat" && r.solver == solvers[0].name) {
 			return r
@@ -117,6 +120,27 @@ func solveFunc(key string, vs *VCSet, opts SolveOpts) float64 {
 	var mu sync.Mutex
 	total := 0.0
 	add := func(s float64) { mu.Lock(); total += s; mu.Unlock() }
+	// Sort check of the whole verification condition with cvc5 (strict): z3 silently coerces Bool to Int,
+	// so an ill-sorted term could otherwise turn into a wrong assumption. An ill-sorted VC proves nothing.
+	{
+		var sb strings.Builder
+		sb.WriteString(smtHeader + vs.queryText(nil))
+		for _, ob := range vs.Obs {
+			sb.WriteString("(assert " + ob.Query + ")\n")
+		}
+		solveSem <- struct{}{}
+		cmd := exec.Command("cvc5", "--lang=smt2", "--strings-exp", "--dt-nested-rec", "--parse-only")
+		cmd.Stdin = strings.NewReader(sb.String())
+		out, _ := cmd.CombinedOutput()
+		<-solveSem
+		if strings.Contains(string(out), "(error") {
+			msg := firstLines(strings.TrimSpace(string(out)), 2)
+			for _, ob := range vs.Obs {
+				ob.Status, ob.Solver = "error: ill-sorted VC: "+msg, "cvc5-1.0"
+			}
+			return 0
+		}
+	}
 	if opts.Keep {
 		dir := filepath.Join(opts.WorkDir, sanitize(key))
 		os.MkdirAll(dir, 0o755)
@@ -176,7 +200,7 @@ func solveFunc(key string, vs *VCSet, opts SolveOpts) float64 {
 			if opts.ExpectFail != nil && opts.ExpectFail(ob.Name) {
 				budget = 3000
 			}
-			r := race(body, budget, add)
+			r := race(body, budget, add, 0, 2, 1) // single obligations: all three solvers
 			ob.Status, ob.Solver, ob.Secs = r.status, r.solver, r.secs
 			if r.status == "unsat" {
 				return
@@ -274,7 +298,8 @@ func solveFunc(key string, vs *VCSet, opts SolveOpts) float64 {
 		bsize = 12
 	}
 	for _, ob := range vs.Obs {
-		if ob.Cover {
+		if ob.Cover || ob.Restrict {
+			// (an obligation with its own set of hypotheses cannot share a query with others)
 			ob := ob
 			wg.Add(1)
 			go func() { defer wg.Done(); single(ob) }()
